@@ -139,6 +139,7 @@ def run(ctx):
     cmp(ctx, dec_ops, p_dec)
     ctx.count("tokens", len(dec_ops) // 2)
     run_infer(ctx, pool, pts)
+    run_params(ctx, pool, pts)
     run_multi(ctx, pool, pts)
     run_stream(ctx, pool, pts)
     run_vectors(ctx)
@@ -176,6 +177,88 @@ def run_infer(ctx, pool, pts):
             if res.get("ok"):
                 dec.append(("jwe.dec", {"jwe": res["jwe"], "jwk": a["jwk"], "rand": "00" * 600, "_pt": a["pt"], "_why": side + " inferred algorithms"}))
     cmp(ctx, dec, p_dec)
+
+
+def run_params(ctx, pool, pts):
+    """parameters that steer key management, in every header they may legally sit in, and one call for several keys:
+    the token must decrypt with every key, on both sides, using only what it records"""
+    rng = ctx.rng
+    ops = []
+    # PBES2 iteration count given by the caller in the protected / shared unprotected / per-recipient header
+    for w in E.PBES2:
+        for place in ("protected", "unprotected", "recipient"):
+            for p2c in (1000, 1001, 4096):
+                for key in ("secret password", pool["oct-24"]):
+                    jwe, rcp = {"protected": {"enc": "A128GCM", "alg": w}}, None
+                    if place == "protected":
+                        jwe["protected"]["p2c"] = p2c
+                    elif place == "unprotected":
+                        jwe["unprotected"] = {"p2c": p2c}
+                    else:
+                        rcp = {"header": {"p2c": p2c}}
+                    a = {"jwe": jwe, "jwk": key, "pt": pts[1].hex(), "rand": rng.randbytes(200).hex(), "_wrap": w, "_enc": "A128GCM",
+                         "_zip": False, "_expect_ok": True, "_why": "p2c=%d in the %s header" % (p2c, place)}
+                    if rcp is not None:
+                        a["rcp"] = rcp
+                    ops.append(("jwe.enc", a))
+    # ECDH-ES agreement data in each header
+    for w in ("ECDH-ES", "ECDH-ES+A128KW", "ECDH-ES+A256KW"):
+        for place in ("protected", "unprotected", "recipient"):
+            extra = {"apu": b64u(b"Alice"), "apv": b64u(b"Bob")}
+            jwe, rcp = {"protected": {"enc": "A128CBC-HS256", "alg": w}}, None
+            if place == "protected":
+                jwe["protected"].update(extra)
+            elif place == "unprotected":
+                jwe["unprotected"] = dict(extra)
+            else:
+                rcp = {"header": dict(extra)}
+            a = {"jwe": jwe, "jwk": pool["EC-P256"], "pt": pts[2].hex(), "rand": rng.randbytes(200).hex(), "_wrap": w, "_enc": "A128CBC-HS256",
+                 "_zip": False, "_expect_ok": True, "_why": "apu/apv in the %s header" % place}
+            if rcp is not None:
+                a["rcp"] = rcp
+            ops.append(("jwe.enc", a))
+    # one call, several keys: no template, an empty template, one template object with its own header, one template per key
+    fresh = lambda n: {"kty": "oct", "k": b64u(rng.randbytes(n))}
+    groups = [("A128GCMKW", [fresh(16), fresh(16)]), ("A256GCMKW", [fresh(32), fresh(32), fresh(32)]), ("A128KW", [fresh(16), fresh(16), fresh(16)]),
+              ("ECDH-ES+A128KW", [pool["EC-P256"], pool["EC-P256-b"]]), ("ECDH-ES+A256KW", [pool["EC-P521"], pool["EC-P521-b"], pool["EC-P256-c"]]),
+              ("PBES2-HS256+A128KW", ["first password", "second password"]), ("RSA-OAEP", [pool["RSA-2048"], pool["RSA-2048-b"]]),
+              (None, [fresh(16), pool["EC-P384"], fresh(32)])]
+    for w, ks in groups:
+        tmpls = [("none", None), ("empty", {}), ("object with header", {"header": {"cty": "text/plain"}}),
+                 ("array", [{"header": {"kid": "r%d" % i}} for i in range(len(ks))])]
+        for tl, t in tmpls:
+            prot = {"enc": "A128GCM"}
+            if w and w.startswith("PBES2"):
+                prot["p2c"] = 1000
+            jwe = {"protected": prot}
+            if w and (tl != "array"):
+                jwe["unprotected"] = {"alg": w}
+            elif w:
+                t = [dict(x, header=dict(x["header"], alg=w)) for x in t]
+            a = {"jwe": jwe, "jwk": list(ks), "pt": pts[1].hex(), "rand": rng.randbytes(600).hex(), "_wrap": "ECDH-ES" if (w is None or w.startswith(("ECDH", "RSA"))) else w,
+                 "_enc": "A128GCM", "_zip": False, "_expect_ok": True, "_keys": ks, "_why": "%d keys (%s), template: %s" % (len(ks), w or "inferred", tl)}
+            if t is not None:
+                a["rcp"] = t
+            ops.append(("jwe.enc", a))
+    real, model = cmp(ctx, ops, p_enc)
+    dec = []
+    for (op, a), r, m in zip(ops, real, model):
+        for side, res in (("jose", r), ("lean", m)):
+            if not res.get("ok"):
+                continue
+            tok = res["jwe"]
+            keys = a.get("_keys") or [a["jwk"]]
+            rcps = tok["recipients"] if isinstance(tok.get("recipients"), list) else [None] * len(keys)
+            if len(rcps) != len(keys):
+                ctx.pfails.append(("enc:general-form", "%d keys but %d recipients: %s" % (len(keys), len(rcps), json.dumps(tok)[:300]), op, strip(a), res))
+                continue
+            for i, k in enumerate(keys):
+                d = {"jwe": tok, "jwk": k, "rand": "00" * 600, "_pt": a["pt"], "_why": "%s-made, %s, key %d of %d" % (side, a["_why"], i, len(keys))}
+                if rcps[i] is not None:
+                    d["rcp"] = rcps[i]      # named explicitly: the RSA1_5 shadowing finding is not what is examined here
+                dec.append(("jwe.dec", d))
+    cmp(ctx, dec, p_dec)
+    ctx.count("params:tokens", len(dec))
 
 
 def run_multi(ctx, pool, pts):
